@@ -1,6 +1,7 @@
 from contracts.weakrefs import InsertOnce, GetCleanRef, RemoveNoneReferents
 from contracts.identity import IdentifierHistories, WorkspaceRegister
-CONTRACTS = [InsertOnce, GetCleanRef, RemoveNoneReferents, WorkspaceRegister, IdentifierHistories]
+from contracts.copying import CopyPropertyGroups
+CONTRACTS = [InsertOnce, GetCleanRef, RemoveNoneReferents, WorkspaceRegister, CopyPropertyGroups, IdentifierHistories]
 
 MANIFEST = {
     "category": "proof",
